@@ -298,13 +298,17 @@ def native_call(fn, kind, recv, args, kwargs, seconds=5):
         signal.signal(signal.SIGALRM, old)
 
 
-def replay_native(envr, spec, model, texts, clauses, raises, frame, fresh, names, unchanged_on_raise=True):
-    """Rebuild the pre-state of `spec` from `model`, run the real function, evaluate the contract natively."""
-    cz = concretize.Concretizer(envr.program, model, texts)
-    recv = cz.val(spec.recv)
-    args = [cz.val(a) for a in spec.args]
-    kwargs = {k: cz.val(v) for k, v in spec.kwargs.items()}
-    fields = {k: cz.val(v) for k, v in spec.fields.items()}
+def replay_native(envr, spec, model, texts, clauses, raises, frame, fresh, names, unchanged_on_raise=True, native=False):
+    """Rebuild the pre-state of `spec` from `model`, run the real function, evaluate the contract natively.
+    With native=True the spec already holds native values."""
+    if native:
+        recv, args, kwargs, fields = native_copy((spec.recv, list(spec.args), dict(spec.kwargs), dict(spec.fields)))
+    else:
+        cz = concretize.Concretizer(envr.program, model, texts)
+        recv = cz.val(spec.recv)
+        args = [cz.val(a) for a in spec.args]
+        kwargs = {k: cz.val(v) for k, v in spec.kwargs.items()}
+        fields = {k: cz.val(v) for k, v in spec.fields.items()}
     old_recv, old_args, old_kwargs = native_copy((recv, args, kwargs))
     fn, kind = envr.native_callable(spec.func)
     pre_desc = {'self': concretize.describe(recv), 'args': [concretize.describe(a) for a in args],
@@ -392,6 +396,31 @@ def replay_native(envr, spec, model, texts, clauses, raises, frame, fresh, names
     }
 
 
+def native_search(envr, run, names_of, budget_s=8.0, max_calls=4000):
+    """Look for a real failing input: run the real function on the native instances of run.pool and evaluate the
+    contract natively.  Returns a replay dict (status REPRODUCED) or None."""
+    if run.pool is None:
+        return None
+    t0 = time.time()
+    n = 0
+    for func, recv, args, kwargs, fields in run.pool(envr):
+        n += 1
+        if n > max_calls or time.time() - t0 > budget_s:
+            break
+        spec = CallSpec(func, recv, list(args), dict(kwargs), dict(fields))
+        try:
+            rp = replay_native(envr, spec, None, (), run.clauses, run.raises, run.frame, run.fresh, names_of(func),
+                               run.unchanged_on_raise, native=True)
+        except Exception:  # noqa
+            continue
+        if rp['status'] == 'REPRODUCED':
+            rp.pop('native_result_obj', None)
+            rp['call'] = func
+            rp['found_by'] = 'native search over the argument pools (%d calls)' % n
+            return rp
+    return None
+
+
 def crosscheck(envr, spec, model, texts):
     """Engine vs CPython on one concrete instance of a path: the concretised symbolic post-state must equal
     the native post-state.  Returns None or a description of the disagreement."""
@@ -440,7 +469,7 @@ class ContractRun:
     """A task: `body(c)` plus the static description needed for native replay."""
 
     def __init__(self, body, clauses=(), raises=None, frame=(), fresh=False, names=None, unchanged_on_raise=True,
-                 replayable=True, use=()):
+                 replayable=True, use=(), pool=None):
         self.body = body
         self.clauses = list(clauses)
         self.raises = raises
@@ -450,6 +479,7 @@ class ContractRun:
         self.unchanged_on_raise = unchanged_on_raise
         self.replayable = replayable
         self.use = tuple(use)     # names of modular contracts (summaries.MODULAR) assumed at call sites
+        self.pool = pool          # callable(envr) -> iterable of (func, recv, args, kwargs, fields) native call instances
 
 
 def model_dict(c, model):
@@ -485,6 +515,7 @@ def run_item(gid, item, cfg):
         seed = cfg.get('seed', 0)
         rate = cfg.get('cross_rate', 20 if tier == 'quick' else 1)
         nrep = [0]
+        searched = {}
 
         def on_path(r):
             pass
@@ -514,6 +545,14 @@ def run_item(gid, item, cfg):
                         entry['replay'] = {'status': 'REPLAY-UNSUPPORTED', 'detail': str(e)}
                     except Exception as e:  # noqa
                         entry['replay'] = {'status': 'REPLAY-ERROR', 'detail': traceback.format_exc(limit=6)}
+                    if entry['replay'].get('status') != 'REPRODUCED' and run.pool is not None:
+                        if 'search' not in searched:
+                            def names_of(q):
+                                f2 = envr.program.funcs[q]
+                                return [a.arg for a in f2.node.args.args][(0 if f2.kind in ('static', 'function') or f2.name == '__new__' else 1):]
+                            searched['search'] = native_search(envr, run, names_of)
+                        if searched['search'] is not None:
+                            entry['replay'] = dict(searched['search'])
                 info['replays'].append(entry)
             if spec is not None and not refuted and run.replayable and spec.done and not getattr(c, 'no_crosscheck', False):
                 key = json.dumps([item, c.decisions[:c.pos]], sort_keys=True, default=str)
